@@ -14,7 +14,7 @@ def sums(alg):
     return seq([seq([b(h), b(str(n)), b(name)]) for n, name in ((1234, "pkg_1.0.orig.tar.gz"), (567, "pkg_1.0-1.debian.tar.xz"), (89, "pkg_1.0-1.dsc"))])
 chfiles = seq([seq([b(H1), b(str(n)), b(sec), b(pri), b(name)]) for n, sec, pri, name in
                ((1234, "utils", "optional", "pkg_1.0-1.dsc"), (567, "non-free/libs", "extra", "pkg_1.0-1_amd64.deb"), (89, "utils", "optional", "pkg_1.0.orig.tar.gz"))])
-people = seq([b("John Doe <jdoe@example.com>"), b("Foo Bar <fnord@baz.fnord>"), b("Ünï Cödé <u@x.org>")])
+people = seq([b("Ondřej Surý <ondrej@example.org>"), b("John Doe <jdoe@example.com>"), b("Ünï Cödé <u@x.org>")])   # non-ASCII names first and last
 deps = seq([b("debhelper (>= 9)"), b("libfoo-dev [amd64] | libbar-dev"), b("python3:any <!nocheck>")])
 VAL = {
  "scalar": lambda f: b({"Format": "3.0 (quilt)", "Urgency": "medium", "Priority": "optional", "Section": "utils"}.get(f, "value of " + f)),
